@@ -28,6 +28,7 @@ pub fn get_message(squitter: &str) -> Option<Vec<u32>> {
             None => false,
         })
         .filter(|message| reminder(message) == 0)
+        .filter(|message| parity_ok(message))
 }
 
 pub(crate) fn get_hex_message(message: &[u32]) -> String {
